@@ -34,6 +34,7 @@ type ClientOp struct {
 	termAtInvoke uint64
 	inst        *sim.Instance
 	orphaned    bool // the server crashed while the call was in flight: outcome unknown
+	flagged     bool
 }
 
 // Runner executes one Program.
@@ -65,6 +66,10 @@ type Runner struct {
 	wall0    int64
 	wallBudget time.Duration
 	Aborted  string
+	leaseCuts []*leaseCut
+	isolated map[string]*isoRec
+	rejoins  []*rejoinRec
+	atRest   bool
 }
 
 type RunOpts struct {
@@ -90,7 +95,7 @@ func (r *Runner) logf(format string, a ...any) {
 
 func NewRunner(p *Program, o RunOpts) *Runner {
 	return &Runner{P: p, cut: map[[2]string]bool{}, Feat: map[string]int{}, failed: map[uint64]string{}, opts: o,
-		notif: map[*sim.Instance]*notifyRec{}, isoTerm: map[string]uint64{}}
+		notif: map[*sim.Instance]*notifyRec{}, isoTerm: map[string]uint64{}, isolated: map[string]*isoRec{}}
 }
 
 func (r *Runner) nodeOpts(i int) sim.NodeOpts {
